@@ -30,3 +30,15 @@ Theorem C18_split_feedin_is_source : forall grid generation cs_sum : R,
   @split_feedin_src R RNum grid generation cs_sum = @split_feedin R RNum grid generation cs_sum.
 Proof. intros. apply split_feedin_is_source. Qed.
 Print Assumptions C18_split_feedin_is_source.
+
+(* ---- the executable (Q) instance that is run against /repo and the proof (R) instance agree (Transfer*.v) ---- *)
+From Coq Require Import QArith Qminmax Qreals.
+From SV Require Import Transfer TransferAll ExecProps.
+Theorem C18_exec_split_nonneg : forall tbl g ge cs,
+  let '(gen, v2g, bat) := @split_feedin Q (QNum tbl) g ge cs in (0 <= gen)%Q /\ (0 <= v2g)%Q /\ (0 <= bat)%Q.
+Proof. exact split_exec_nonneg. Qed.
+Print Assumptions C18_exec_split_nonneg.
+Theorem C18_exec_split_sum : forall tbl g ge cs, (ge <= 0)%Q -> (cs <= 0)%Q ->
+  let '(gen, v2g, bat) := @split_feedin Q (QNum tbl) g ge cs in (gen + v2g + bat == Qmax g 0)%Q.
+Proof. exact split_exec_sum. Qed.
+Print Assumptions C18_exec_split_sum.
